@@ -1,5 +1,6 @@
 import ChiDriver.C04
 import ChiDriver.C01
+import ChiDriver.C08
 namespace ChiDriver
-def allOps : List (String × Op) := C04.ops ++ C01.ops
+def allOps : List (String × Op) := C04.ops ++ C01.ops ++ C08.ops
 end ChiDriver
